@@ -10,9 +10,15 @@
 (*                                                                         *)
 (* Implementation (pkg/output/file_output_handlers.go:                      *)
 (* MultiOutputHandlerManager): an LRU cache of at most K open handlers; a    *)
-(* miss at capacity closes the least recently used handler and remembers its *)
-(* name; a later miss on a remembered name re-opens the file in append mode  *)
-(* with a FRESH record writer.  Written as a function Step over a state      *)
+(* miss at capacity takes the file away from the least recently used handler *)
+(* and remembers it; a later miss on a remembered name re-opens the file in  *)
+(* append mode.  Constant Suspend chooses between the two designs the code   *)
+(* has had: TRUE (the tree as repaired) - the evicted handler keeps its      *)
+(* record writer, which continues its document after the re-open and ends it *)
+(* when the manager is closed; FALSE (the pinned tree) - eviction closes the  *)
+(* handler (ending its document) and the re-open starts a FRESH record       *)
+(* writer: kept as the design mutation TLC must still refute (Refines fails  *)
+(* for documents with a header or brackets).  Written as a function Step over a state      *)
 (* record so that both the model checker (actions) and the validation of     *)
 (* real files (ImplFiles of a history) use the same definition.              *)
 (*                                                                         *)
@@ -27,7 +33,8 @@ CONSTANTS Targets,     \* set of target ids (naturals)
           Kind,        \* "plain" (DKVP, NIDX, JSON Lines, XTAB, lines of text), "header" (CSV, TSV), "bracket" (JSON)
           Mode,        \* "write" (>) or "append" (>>)
           Pre,         \* set of targets whose file exists beforehand
-          MaxWrites    \* bound on the history length
+          MaxWrites,   \* bound on the history length
+          Suspend      \* TRUE: eviction suspends the handler (repaired design); FALSE: eviction closes it (pinned tree)
 
 VARIABLES hist,        \* the routed input so far: sequence of <<target, record>>
           st,          \* implementation state (see Init0)
@@ -90,24 +97,32 @@ Step(s, t, r) ==
            s1 == IF full
                  THEN [s EXCEPT !.lru = SubSeq(s.lru, 1, Len(s.lru) - 1),
                                 !.evicted = @ \cup {e},
-                                !.file[e] = @ \o CloseTok(s, e)]
+                                \* (suspended: everything written so far is in the file, the document stays open)
+                                !.file[e] = @ \o (IF Suspend THEN <<>> ELSE CloseTok(s, e))]
                  ELSE s
            app == Mode = "append" \/ t \in s1.evicted
+           resumed == Suspend /\ t \in s1.evicted
        IN [s1 EXCEPT !.lru = <<t>> \o s1.lru,
                      !.evicted = @ \ {t},
-                     \* a new handler means a new record writer: it starts its document afresh
-                     !.file[t] = (IF app THEN @ ELSE <<>>) \o Opening \o <<R(r)>>,
+                     \* a resumed handler continues its document; a new handler means a new record writer, which
+                     \* starts its document afresh
+                     !.file[t] = IF resumed THEN @ \o (IF s.fresh[t] THEN Opening ELSE <<>>) \o <<R(r)>>
+                                 ELSE (IF app THEN @ ELSE <<>>) \o Opening \o <<R(r)>>,
                      !.fresh[t] = FALSE,
                      !.lastHit = FALSE, !.lastEvict = e, !.lastAppend = app]
 
 RECURSIVE CloseAll(_, _)
 CloseAll(s, open) == IF open = <<>> THEN [s EXCEPT !.lru = <<>>]
                      ELSE CloseAll([s EXCEPT !.file[Head(open)] = @ \o CloseTok(s, Head(open))], Tail(open))
+\* the manager's Close: every open handler, and (repaired design) every suspended one, ends its document
+SeqOfSet(S) == CHOOSE q \in [1..Cardinality(S) -> S] : \A i, j \in 1..Cardinality(S) : i # j => q[i] # q[j]
+CloseManager(s) == LET s2 == CloseAll(s, s.lru \o (IF Suspend THEN SeqOfSet(s.evicted) ELSE <<>>))
+                   IN IF Suspend THEN [s2 EXCEPT !.evicted = {}] ELSE s2
 
 RECURSIVE Run(_, _)
 Run(s, h) == IF h = <<>> THEN s ELSE Run(Step(s, Head(h)[1], Head(h)[2]), Tail(h))
 \* the files the implementation leaves for a history
-ImplFiles(h) == LET s == Run(Init0, h) IN CloseAll(s, s.lru).file
+ImplFiles(h) == CloseManager(Run(Init0, h)).file
 
 (***************************************************************************)
 (* As a state machine                                                      *)
@@ -117,7 +132,7 @@ Write(t) == /\ ~closed /\ Len(hist) < MaxWrites
             /\ hist' = Append(hist, <<t, Len(hist) + 1>>)
             /\ st' = Step(st, t, Len(hist) + 1)
             /\ UNCHANGED closed
-Close == /\ ~closed /\ closed' = TRUE /\ st' = CloseAll(st, st.lru) /\ UNCHANGED hist
+Close == /\ ~closed /\ closed' = TRUE /\ st' = CloseManager(st) /\ UNCHANGED hist
 Next == (\E t \in Targets : Write(t)) \/ Close \/ (closed /\ UNCHANGED vars)
 Spec == Init /\ [][Next]_vars
 
